@@ -29,19 +29,20 @@
                     based at 0, no port declaration later in the body, the instantiated module not declared later).
      C06_full_assigns_document : the same for the assign clause (pin k of the assignment carries bit k of both sides).
      C06_full_ports_document   : what header and port declarations joined (C06_full_ports) is in the final value.
+     C06_full_instances_document : every instantiation is an instance of that name and module in the value.
      NOT proved - C06_full stays a Definition: (i) the connection clause when the instantiated module is declared LATER
      in the file (forward reference) or a port declaration follows the instance: a re-basing declaration
      ("input [7:4] a" after "module m(a)") legitimately moves labels, so this needs the statement in positions from the
      low end, or "declarations based at 0" as a reachable-state invariant; (ii) the composition of the deferred
      positional maps over the positions of one instance; (iii) the remaining clauses of denote at document level
-     (modules, ports, cables, instance parameters / attributes are proved per construct only) and exactness (that the
-     nets and assigns hold nothing else).
+     (the list of modules, port direction / width / base, cables, instance parameters / attributes are proved per
+     construct only) and exactness (that the nets, assigns and instances hold nothing else).
    Character-level tokenisation and the recursive descent from tokens to the document value are not modelled. *)
 From Coq Require Import String.
 From Coq Require Import List ZArith Bool Permutation Lia.
 From SV Require Import Base.Base Fmt.VBits Fmt.VExpr Fmt.VDoc Fmt.VTop Fmt.VElab Fmt.VSpec Fmt.VSem
   Proofs.VerilogLists Proofs.VerilogSlice Proofs.VerilogGrow Proofs.VerilogPort Proofs.VerilogAssign Proofs.VerilogTop
-  Proofs.VElabBase Proofs.VElabInv Proofs.VElabWf Proofs.VElabExpr Proofs.VElabConn Proofs.VElabAssign Proofs.VElabPorts Proofs.VElabNets Proofs.VElabTop Proofs.VElabStable Proofs.VElabVis Proofs.VElabFrame Proofs.VElabFrameX Proofs.VElabDoc Proofs.VElabRun Proofs.VElabRunX Proofs.VElabRunA Proofs.VElabRunP.
+  Proofs.VElabBase Proofs.VElabInv Proofs.VElabWf Proofs.VElabExpr Proofs.VElabConn Proofs.VElabAssign Proofs.VElabPorts Proofs.VElabNets Proofs.VElabTop Proofs.VElabStable Proofs.VElabVis Proofs.VElabFrame Proofs.VElabFrameX Proofs.VElabDoc Proofs.VElabRun Proofs.VElabRunX Proofs.VElabRunA Proofs.VElabRunP Proofs.VElabRunI.
 Import ListNotations.
 Local Close Scope string_scope.
 Open Scope Z_scope.
@@ -748,6 +749,35 @@ Proof.
   vm_compute in E5. inversion E5; subst s5 cur. clear E5.
   vm_compute in Es. inversion Es; subst s. clear Es.
   apply K. vm_compute. left. reflexivity.
+Qed.
+
+(* the instances clause on whole documents (no typing hypothesis; named or positional map): every instantiation
+   "m' i (...)" in a module m - no port declaration after it in the body, no later module re-declaring m - is an
+   instance named i of module m' in a definition of the value *)
+Theorem C06_full_instances_document : forall pre m post before m' i params attrs conns after n,
+  elab (pre ++ m :: post) = Ok n -> vm_cell m = false ->
+  vm_body m = before ++ IInst m' i params attrs conns :: after -> Forall not_port_decl after ->
+  Forall (fun m2 => vm_name m2 <> vm_name m) post ->
+  exists cur d, nth_error (nv_defs n) cur = Some d /\ In (i, m') (map (fun ni => (ni_name ni, ni_ref ni)) (nd_insts d)).
+Proof. exact module_has_instance. Qed.
+Print Assumptions C06_full_instances_document.
+
+(* the positional instance "GND g(w[0], 1'b0)" of top in ex_doc4 *)
+Example C06_full_instances_document_witness :
+  match elab ex_doc4 with
+  | Ok n => exists cur d, nth_error (nv_defs n) cur = Some d /\ In (S "g", S "GND") (map (fun ni => (ni_name ni, ni_ref ni)) (nd_insts d))
+  | Err _ => False
+  end.
+Proof.
+  destruct (elab ex_doc4) as [n|er] eqn:E; [|vm_compute in E; discriminate].
+  apply (C06_full_instances_document (firstn 1 ex_doc4) (nth 1 ex_doc4 {| vm_name := []; vm_cell := true; vm_params := []; vm_attrs := []; vm_header := []; vm_body := [] |})
+           (skipn 2 ex_doc4)
+           (firstn 5 (vm_body (nth 1 ex_doc4 {| vm_name := []; vm_cell := true; vm_params := []; vm_attrs := []; vm_header := []; vm_body := [] |})))
+           (S "GND") (S "g") [] [] (CPos [Some (DAtom (DBit (S "w") 0)); Some (DAtom (DConst false))])
+           (skipn 6 (vm_body (nth 1 ex_doc4 {| vm_name := []; vm_cell := true; vm_params := []; vm_attrs := []; vm_header := []; vm_body := [] |})))
+           n E eq_refl eq_refl).
+  - repeat constructor.
+  - constructor; [|constructor]. vm_compute. discriminate.
 Qed.
 
 (* ANSI headers: a direction, and the range given with it or after it, stays in force for the names that follow
